@@ -39,6 +39,7 @@ pub const FAULT_CLASSES: &[&str] = &[
     "size_negative", "size_non_integer", "size_null", "size_negative_compound",
     "operand_int_plus_bool", "operand_bool_and_int", "operand_int_less_null", "operand_null_plus", "operand_bool_plus", "operand_int_and",
     "print_too_few_arguments", "print_too_many_arguments", "print_no_placeholder_with_argument",
+    "feeny_div_by_zero", "feeny_mod_by_zero", "feeny_add_wrong_operand", "feeny_and_wrong_operand", "feeny_le_wrong_operand", "feeny_min_div_minus_one",
     "print_plain_format_with_argument", "print_empty_format_with_argument", "print_only_placeholder_no_argument", "print_escape_only_format_with_argument",
     "divide_by_zero", "remainder_by_zero", "min_divided_by_minus_one",
     "call_method_on_function_result_null", "assign_unknown_variable",
@@ -137,6 +138,12 @@ pub fn fault(class: &str, k: usize) -> Fault {
             x.own_exact = false;
             x
         }
+        "feeny_div_by_zero" => f("1.div(0)"),
+        "feeny_mod_by_zero" => f("1.mod(0)"),
+        "feeny_add_wrong_operand" => f("1.add(true)"),
+        "feeny_and_wrong_operand" => f("true.and(1)"),
+        "feeny_le_wrong_operand" => f("1.le(null)"),
+        "feeny_min_div_minus_one" => f("(-2147483648).div(-1)"),
         "divide_by_zero" => f("1 / 0"),
         "remainder_by_zero" => f("1 % 0"),
         "min_divided_by_minus_one" => f("(-2147483648) / (-1)"),
